@@ -767,3 +767,98 @@ Proof.
   rewrite frac_auto_bytes by lia.
   unfold fok. f_equal. f_equal. cbn [app]. rewrite <- !app_assoc. cbn [app]. reflexivity.
 Qed.
+
+(** * Whole token lists *)
+Definition tok_documented (t : tok) : Prop := match t with KFix f => tfield_documented f | _ => True end.
+
+Lemma render_all_acc sv l : forall acc,
+  render_all sv l acc = match render_all sv l [] with ROk s => ROk (acc ++ s) | x => x end.
+Proof.
+  induction l as [|t r IH]; intros acc; cbn [render_all].
+  - rewrite app_nil_r. reflexivity.
+  - destruct (render_tok sv t) as [s| |]; try reflexivity.
+    rewrite (IH (acc ++ s)), (IH ([] ++ s)). cbn [app].
+    destruct (render_all sv r []); try reflexivity. rewrite app_assoc. reflexivity.
+Qed.
+Lemma render_all_app sv l1 l2 : forall acc,
+  render_all sv (l1 ++ l2) acc = match render_all sv l1 acc with ROk a => render_all sv l2 a | x => x end.
+Proof.
+  induction l1 as [|t r IH]; intros acc; cbn [render_all app]; [reflexivity|].
+  destruct (render_tok sv t); try reflexivity. apply IH.
+Qed.
+
+Lemma write_items_step a it r acc :
+  write_items a (it :: r) acc =
+  match format_item a it with
+  | Val (Some s) => write_items a r (acc ++ s) | Val None => Val None | Panic => Panic | OutOfFuel => OutOfFuel end.
+Proof. cbn [write_items]. unfold fseq, bind. destruct (format_item a it) as [[s|]| |]; reflexivity. Qed.
+
+Theorem render_tokens_spec : forall a sv toks acc, args_view a sv -> Forall tok_documented toks ->
+  claim (render_all sv (expand_iso toks) acc) (write_items a (map item_of_tok toks) acc).
+Proof.
+  intros a sv toks acc Hv. revert acc. induction toks as [|t r IH]; intros acc Hdoc.
+  - cbn. reflexivity.
+  - inversion Hdoc as [|? ? Ht Hr]; subst. specialize (IH). cbn [map]. rewrite write_items_step.
+    destruct t as [s|f p|f|]; cbn [item_of_tok format_item].
+    + cbn [expand_iso render_all render_tok]. unfold fok. apply IH. exact Hr.
+    + cbn [expand_iso render_all render_tok].
+      pose proof (render_numeric_spec a sv f p Hv) as C.
+      destruct (render_num sv f p) as [s| |]; cbn [claim] in C |- *; rewrite ?C; unfold fok, ferr; auto.
+    + destruct f; try (cbn [expand_iso render_all render_tok];
+        match goal with |- context [render_fix sv ?f] =>
+          pose proof (render_fixed_spec a sv f Hv Ht) as C;
+          destruct (render_fix sv f) as [s| |]; cbn [claim] in C |- *; rewrite ?C; unfold fok, ferr; auto
+        end).
+      (* %+ *)
+      cbn [expand_iso fixed_of]. rewrite render_all_app, render_all_acc.
+      pose proof (render_iso_spec a sv Hv) as C.
+      destruct (render_all sv (tokens iso_expansion) []) as [s| |]; cbn [claim] in C |- *;
+        rewrite ?C; unfold fok, ferr; auto.
+    + cbn [expand_iso render_all render_tok]. reflexivity.
+Qed.
+
+Lemma write_items_upto_err a l : forall acc,
+  write_items a (map item_of_tok (upto_err l)) acc = write_items a (map item_of_tok l) acc.
+Proof.
+  induction l as [|t r IH]; intros acc; [reflexivity|].
+  destruct t; cbn [upto_err map]; rewrite ?write_items_step; cbn [item_of_tok format_item];
+    try (destruct (format_numeric _ _ _) as [[s|]| |]); try (destruct (format_fixed _ _) as [[s|]| |]);
+    unfold fok, ferr; auto.
+Qed.
+
+(* every token produced from a format string stands for a documented entry *)
+Definition entry_documented (e : entry) : Prop := match e with EText f => tfield_documented f | _ => True end.
+Lemma doc_table_documented : Forall (fun ne => entry_documented (snd ne)) doc_table.
+Proof. unfold doc_table. repeat (apply Forall_cons; [cbn; auto|]). apply Forall_nil. Qed.
+Lemma lookup_in t : forall s e rest, lookup t s = Some (e, rest) -> exists name, In (name, e) t.
+Proof.
+  induction t as [|[name e'] r IH]; intros s e rest H; [discriminate|]. cbn [lookup] in H.
+  destruct (strip_prefix name s).
+  - injection H as <- <-. exists name. left. reflexivity.
+  - destruct (IH _ _ _ H) as [n Hn]. exists n. right. exact Hn.
+Qed.
+Lemma toks_documented comp : (forall x, Forall tok_documented (comp x)) ->
+  forall fuel s, Forall tok_documented (toks comp fuel s).
+Proof.
+  intros Hc. induction fuel as [|f IH]; intros s; [constructor|]. cbn [toks].
+  destruct s as [|c r]; [constructor|].
+  destruct (c =? 37) eqn:E37.
+  - apply Z.eqb_eq in E37. subst c.
+    set (pr := match r with
+               | c :: r' => match modifier c with Some p => (Some p, r') | None => (None, r) end
+               | [] => (None, r) end).
+    destruct pr as [pad r1].
+    destruct (lookup doc_table r1) as [[e rest]|] eqn:El; [|repeat constructor].
+    destruct (lookup_in _ _ _ _ El) as [name Hin].
+    pose proof (proj1 (Forall_forall _ _) doc_table_documented _ Hin) as Hd. cbn [snd] in Hd.
+    destruct e, pad; try (repeat constructor; fail); try (constructor; [exact I || exact Hd|apply IH]).
+    apply Forall_app. split; [apply Hc|apply IH].
+  - replace (match c with 37 => _ | _ => KText [c] :: toks comp f r end) with (KText [c] :: toks comp f r).
+    + constructor; [exact I|apply IH].
+    + destruct c as [|p|p]; try reflexivity.
+      do 6 (destruct p as [p|p|]; try reflexivity). discriminate E37.
+Qed.
+Lemma tokens_documented s : Forall tok_documented (tokens s).
+Proof.
+  apply toks_documented. intros x. apply toks_documented. intros y. repeat constructor.
+Qed.
